@@ -26,7 +26,10 @@ TRUSTED = ['assumed callee contracts: resolve, lookup, route, produce', 'the ses
 ASSUMPTIONS = ['single connection at a time in the bounded tier; schedules are not enumerated']
 
 C06_LABELS = ('reply-bit: the reply service is the request service | 0x80', 'returns-true', 'one-reply-payload-produced',
-              'status-is-0x00-0x05-or-0xFF', 'unknown-tag-or-attribute: status 0x05')
+              'status-is-0x00-0x05-or-0xFF', 'unknown-tag-or-attribute: status 0x05',
+              # a write whose data type the tag cannot hold must be refused: a stored value the tag's own type cannot produce makes every later
+              # read of it fail outside the reply path, i.e. no reply frame for that request
+              'type-mismatch: 0xFF/0x2107 and unchanged')
 
 
 
